@@ -4,6 +4,7 @@ import (
 	"bytes"
 	"fmt"
 	"math"
+	"strings"
 
 	"seehuhn.de/go/sfnt"
 	"seehuhn.de/go/sfnt/cff"
@@ -12,6 +13,7 @@ import (
 
 	"verif/harness/internal/gen/fontgen"
 	"verif/harness/internal/mon"
+	"verif/harness/internal/ref/cffmini"
 	"verif/harness/internal/ref/glyfref"
 	"verif/harness/internal/ref/sfntwalk"
 	"verif/harness/internal/ref/tabread"
@@ -372,6 +374,30 @@ func c03fonts(c *mon.Ctx) {
 			f.ModificationTime = f.ModificationTime.AddDate(2001, 0, 0)
 		}
 		desc := fmt.Sprintf("kind=%s glyphs=%d cmap=%s", info.Kind, info.NGlyphs, info.CMap)
+		if info.Kind != "glyf" && k.Index%5 == 1 {
+			// tune one string so that the data of the CFF String INDEX is
+			// exactly 254, 255 or 256 bytes long (the last offset 256 is the
+			// first that needs two bytes)
+			f.Trademark = ""
+			if probe, ok := writeFont(k, f, "Write(F)"); ok {
+				if pw, _ := sfntwalk.Walk(probe); pw != nil {
+					if t := pw.Get("CFF "); t != nil {
+						if mf, err := cffmini.Parse(t.Data); err == nil && mf.Strings != nil {
+							have := 0
+							for _, d := range mf.Strings.Data {
+								have += len(d)
+							}
+							target := 254 + k.Index/15%3
+							if pad := target - have; pad >= 2 {
+								f.Trademark = "TM" + strings.Repeat("x", pad-2)
+								k.Class(fmt.Sprintf("cff:string-index-data=%d", target))
+								desc += fmt.Sprintf(" string-index-data=%d", target)
+							}
+						}
+					}
+				}
+			}
+		}
 		out, ok := writeFont(k, f, "Write(F)")
 		if !ok {
 			return
@@ -459,7 +485,7 @@ func c03fonts(c *mon.Ctx) {
 			k.Sample(desc + fmt.Sprintf(" file=%d bytes", len(out)))
 		}
 	})
-	c.Require("ximage:vertical-metrics-compared", "ximage:post-header-compared", "ximage:name-strings-compared")
+	c.Require("cff:string-index-data=254", "cff:string-index-data=255", "cff:string-index-data=256", "ximage:vertical-metrics-compared", "ximage:post-header-compared", "ximage:name-strings-compared")
 	c.Require("writer:Write:glyf", "writer:Write:cff", "writer:Write:cid", "writer:WriteTrueTypePDF", "writer:WriteTrueTypePDF:extra-tables", "writer:WriteOpenTypeCFFPDF",
 		"ximage:cmap-compared", "ximage:simple-outline-compared", "ximage:composite-outline-compared", "ximage:cff-outline-compared", "ximage:name-compared")
 }
